@@ -38,7 +38,7 @@ def _dim(rng) -> int:
 
 
 def gen_cases(tier: str, seed: int) -> List[Dict[str, Any]]:
-    n = 1200 if tier == "quick" else 48000
+    n = 1200 if tier == "quick" else 192000
     cases = []
     for i in range(n):
         rng = rng_for(seed, PROPERTY, i)
